@@ -192,11 +192,14 @@ fn write_instruction_pointer_memory(
         ) as u64;
         ip_memory_d.memory.data_size = (end_of_range - ip_memory_d.start_of_memory_range) as u32;
 
-        let memory_copy = PtraceDumper::copy_from_process(
+        // Some mappings cannot be read (the vsyscall page): the dump then goes without the window.
+        let Ok(memory_copy) = PtraceDumper::copy_from_process(
             thread_id,
             ip_memory_d.start_of_memory_range as _,
             ip_memory_d.memory.data_size as usize,
-        )?;
+        ) else {
+            break;
+        };
 
         let mem_section = MemoryArrayWriter::alloc_from_array(buffer, &memory_copy)?;
         ip_memory_d.memory = mem_section.location();
@@ -235,11 +238,30 @@ fn fill_thread_stack(
             _ => (valid_stack_ptr, stack_len),
         };
 
-        let mut stack_bytes = PtraceDumper::copy_from_process(
-            thread.thread_id.try_into()?,
-            valid_stack_ptr,
-            stack_len,
-        )?;
+        // The mapping may begin with pages that cannot be read although the map shows nothing
+        // special: guard pages installed with MADV_GUARD_INSTALL sit inside the stack's own
+        // mapping. Skip them as a guard page that is a mapping of its own is skipped; a stack that
+        // cannot be read at all is left out rather than failing the whole dump.
+        const GUARD_DISTANCE: usize = 1024 * 1024;
+        let page_size = dumper.page_size.max(4096);
+        let mut skipped = 0;
+        let stack_bytes = loop {
+            match PtraceDumper::copy_from_process(
+                thread.thread_id.try_into()?,
+                valid_stack_ptr + skipped,
+                stack_len - skipped,
+            ) {
+                Ok(bytes) => break Some(bytes),
+                Err(_) if skipped + page_size < stack_len && skipped < GUARD_DISTANCE => {
+                    skipped += page_size;
+                }
+                Err(_) => break None,
+            }
+        };
+        let Some(mut stack_bytes) = stack_bytes else {
+            return Ok(());
+        };
+        let valid_stack_ptr = valid_stack_ptr + skipped;
         let stack_pointer_offset = stack_ptr.saturating_sub(valid_stack_ptr);
         if config.skip_stacks_if_mapping_unreferenced {
             if let Some(principal_mapping) = &config.principal_mapping {
